@@ -87,6 +87,11 @@ here; the generator does not emit it.) -/
 def effective (l : Level) (ov : Option Action) : Action :=
   if l == .skip then .skip else ov.getD l.base
 
+/-- the entry point the observed call goes through: `verifier.Verify` (OCI document), or
+`verifier.VerifyBlob` under a named blob statement / under the global blob statement -/
+inductive Entry | oci | blob | blobGlobal
+  deriving DecidableEq, Repr, FromJson, ToJson
+
 structure Input where
   vec : List R                 -- the validator's results, leaf first
   chainLen : Nat               -- number of certificates in the signing chain (normally = vec.length)
@@ -121,6 +126,22 @@ structure Input where
                                -- context-aware validator is the one consulted; must not matter otherwise
   variant : String             -- what else is true of the signature (expired signature under a level that logs
                                -- expiry, expired chain, empty-subject signing certificate): must not matter
+  entry : Entry                -- the entry point of the observed call; `level` / `revOverride` are those of the
+                               -- statement APPLICABLE to that call: both entry points share processSignature - must not matter
+  companions : List String     -- the OTHER statements the same long-lived verifier holds, "<doc>/<rel>/<level>/<override>":
+                               -- doc = oci | blob (the verifier may hold both documents), rel = same | other (its name
+                               -- equals / differs from the applicable statement's; names are unique per DOCUMENT only)
+                               -- with suffix Wild (scope "*" / the global blob statement), and what it says about
+                               -- revocation: a verifier keeps no state between calls - must not matter
+  history : List String        -- the calls made on the same verifier BEFORE the observed one ("c<k>": Verify / VerifyBlob
+                               -- under companion k, "self": under the applicable statement, "skip:...": SkipVerify):
+                               -- must not matter
+  extraMethod : String         -- what ELSE the dynamic type of the supplied validator / client can do: "" nothing;
+                               -- "allOK" | "allRevoked" | "error": it also has the method of the OTHER interface
+                               -- (a deprecated client that embeds a context-aware validator, or the reverse), answering
+                               -- so. The object is consulted through the interface it was supplied as - must not matter
+  timestampingSupplied : Bool  -- the caller also supplied a timestamping validator (waving everything through): it is
+                               -- not the one to ask about the signing chain - must not matter
   deriving Repr, FromJson, ToJson
 
 /-- action of the revocation type in the level the statement denotes -/
